@@ -163,18 +163,19 @@ impl<'a> Evaluator<'a> {
                 match self.evaluate_expression_factor(factor, track_usage)? {
                     Some(value) => match value {
                         SymbolData::Number(mut number) => {
+                            // The grammar is '!' '-' factor, so the negation is applied first: !-x is !(-x)
+                            if flags.contains(ExpressionFactorFlags::NEG) {
+                                number = number.checked_neg().ok_or_else(|| EvaluationError {
+                                    span: factor.span,
+                                    message: format!("the result of '-{}' is out of range", number),
+                                })?;
+                            }
                             if flags.contains(ExpressionFactorFlags::NOT) {
                                 if number == 0 {
                                     number = 1
                                 } else {
                                     number = 0
                                 }
-                            }
-                            if flags.contains(ExpressionFactorFlags::NEG) {
-                                number = number.checked_neg().ok_or_else(|| EvaluationError {
-                                    span: factor.span,
-                                    message: format!("the result of '-{}' is out of range", number),
-                                })?;
                             }
                             Ok(Some(number.into()))
                         }
